@@ -157,6 +157,19 @@ func c09(c *ctx) {
 			}
 		}
 	}
+	// a negotiator that objects to one extension only, offered in any position, on one or several header lines
+	for _, exts := range [][]string{{"x-reject", "x-a"}, {"x-a", "x-reject"}, {"x-a", "x-reject", "x-b"}, {"x-a", "x-b"}, {"x-reject"}} {
+		for _, extLines := range []int{1, 2} {
+			for _, st := range []int{0, 403} {
+				for _, api := range apis {
+					q := base
+					q.Exts, q.ExtLines = exts, extLines
+					cf := scfg{Reject: "negotiate", RejectStatus: st, ExtMode: "negotiate", RejectExt: "x-reject", ExtAccept: []string{"x-a", "x-b"}}
+					emit(fmt.Sprintf("negone/%s/%v/%d/%d", api, exts, extLines, st), api, q, cf)
+				}
+			}
+		}
+	}
 	_ = rng
 	meta.Evaluations = n
 	meta.Distinct = len(shapes)
